@@ -152,13 +152,28 @@ def enclosing_loops(module, stmt):
     return out
 
 
-def handler_names(h):
-    """Exception names caught by an except handler ([] = bare except)."""
+def handler_names(h, module=None):
+    """Exception names caught by an except handler (["*"] = bare except).  With the module given,
+    a name bound once at module level to a tuple of exception names (or to another name) is
+    expanded."""
     if h.type is None:
         return ["*"]
-    if isinstance(h.type, ast.Tuple):
-        return [norm_src(e) for e in h.type.elts]
-    return [norm_src(h.type)]
+
+    def expand(e, depth=0):
+        if isinstance(e, ast.Tuple):
+            out = []
+            for x in e.elts:
+                out.extend(expand(x, depth))
+            return out
+        if isinstance(e, ast.BinOp) and isinstance(e.op, ast.Add):
+            return expand(e.left, depth) + expand(e.right, depth)
+        if module is not None and depth < 4 and isinstance(e, ast.Name) and len(module.assign_nodes.get(e.id, [])) == 1:
+            v = module.assigns[e.id]
+            if isinstance(v, (ast.Tuple, ast.Name, ast.BinOp)):
+                return expand(v, depth + 1)
+        return [norm_src(e)]
+
+    return expand(h.type)
 
 
 def stmts_before(module, stmt, func_node):
